@@ -520,7 +520,9 @@ var Faults = []Fault{
 		return true
 	}},
 	{"unknown-input-field", "ValuesOfCorrectType", func(c *FCtx) bool {
-		tv, ok := c.pickValue(func(tv typedValue, td *tsys.Def) bool { return td != nil && td.Kind == "input" && tv.val.Kind == m.VObject })
+		tv, ok := c.pickValue(func(tv typedValue, td *tsys.Def) bool {
+			return td != nil && td.Kind == "input" && tv.val.Kind == m.VObject
+		})
 		if !ok {
 			return false
 		}
@@ -555,19 +557,27 @@ var Faults = []Fault{
 			return false
 		}
 		td := c.Mg.Types[tv.typ.Base()]
+		var req []string
 		for _, f := range td.Fields {
 			if f.Type.NonNull && f.Default == nil {
-				var keep []m.ObjField
-				for _, x := range tv.val.Fields {
-					if x.Name != f.Name {
-						keep = append(keep, x)
-					}
-				}
-				tv.val.Fields = keep
-				return true
+				req = append(req, f.Name)
 			}
 		}
-		return false
+		// one of the required fields, or (half of the time) all of them: several errors for one literal
+		drop := map[string]bool{req[c.R.Intn(len(req))]: true}
+		if len(req) > 1 && c.R.Chance(1, 2) {
+			for _, n := range req {
+				drop[n] = true
+			}
+		}
+		var keep []m.ObjField
+		for _, x := range tv.val.Fields {
+			if !drop[x.Name] {
+				keep = append(keep, x)
+			}
+		}
+		tv.val.Fields = keep
+		return true
 	}},
 	{"duplicate-input-field", "UniqueInputFieldNames", func(c *FCtx) bool {
 		tv, ok := c.pickValue(func(tv typedValue, td *tsys.Def) bool { return tv.val.Kind == m.VObject && len(tv.val.Fields) > 0 })
@@ -654,6 +664,55 @@ var Faults = []Fault{
 		}
 		tv.set(val(m.VVar, "undefinedVar"))
 		return true
+	}},
+	{"undefined-variable-in-later-operation", "NoUndefinedVariables", func(c *FCtx) bool {
+		// an operation without variable definitions is added after the others; it reaches, through literal-only fields, a
+		// fragment that an earlier operation spreads and that uses that operation's variables
+		uses := c.fragsUsingVariables()
+		for _, oi := range c.R.Perm(len(c.Doc.Defs)) {
+			op := c.Doc.Defs[oi]
+			if op.IsFragment || len(op.Vars) == 0 {
+				continue
+			}
+			var chain []*m.Sel
+			var find func(ss []*m.Sel, anc []*m.Sel) bool
+			find = func(ss []*m.Sel, anc []*m.Sel) bool {
+				for _, pi := range c.R.Perm(len(ss)) {
+					s := ss[pi]
+					switch s.Kind {
+					case m.SSpread:
+						if uses[s.Name] {
+							chain = append(append([]*m.Sel{}, anc...), s)
+							return true
+						}
+					default:
+						if argsHaveVar(s.Args) {
+							continue
+						}
+						if find(s.Sel, append(anc, s)) {
+							return true
+						}
+					}
+				}
+				return false
+			}
+			if !find(op.Sel, nil) {
+				continue
+			}
+			var cur *m.Sel
+			for i := len(chain) - 1; i >= 0; i-- {
+				s := chain[i]
+				cp := &m.Sel{Kind: s.Kind, Alias: s.Alias, Name: s.Name, TypeCond: s.TypeCond, Args: cloneArgs(s.Args)}
+				if cur != nil {
+					cp.Sel = []*m.Sel{cur}
+				}
+				cur = cp
+			}
+			c.nameAll()
+			c.Doc.Defs = append(c.Doc.Defs, &m.Def{Op: op.Op, Name: "LaterWithoutVariables", Sel: []*m.Sel{cur}})
+			return true
+		}
+		return false
 	}},
 	{"unused-variable", "NoUnusedVariables", func(c *FCtx) bool {
 		ops := c.ops()
@@ -1044,7 +1103,24 @@ var Faults = []Fault{
 		f := func(n string, sub ...*m.Sel) *m.Sel { return &m.Sel{Kind: m.SField, Name: n, Sel: sub} }
 		deep := f("fields", f("type", f("fields", f("type", f("fields", f("name"))))))
 		c.nameAll()
-		switch c.R.Intn(3) {
+		switch c.R.Intn(5) {
+		case 3, 4:
+			// a random chain of three counted list fields with decoy siblings (fields, inline fragments, uncounted links)
+			// before and after every link
+			body := deepIntrospection(c.R, 3)
+			var top *m.Sel
+			switch c.R.Intn(4) {
+			case 0:
+				top = f("__schema", f("types", body...))
+			case 1:
+				top = f("__schema", f("queryType", body...))
+			case 2:
+				top = f("__schema", f("directives", f("name"), f("args", f("type", body...))))
+			default:
+				top = f("__type", body...)
+				top.Args = []m.Arg{{Name: "name", Value: val(m.VString, "Query")}}
+			}
+			c.Doc.Defs = append(c.Doc.Defs, &m.Def{Op: "query", Name: "Deep", Sel: []*m.Sel{top}})
 		case 0:
 			c.Doc.Defs = append(c.Doc.Defs, &m.Def{Op: "query", Name: "Deep", Sel: []*m.Sel{f("__schema", f("types", deep))}})
 		case 1:
@@ -1060,6 +1136,129 @@ var Faults = []Fault{
 		}
 		return true
 	}},
+}
+
+func valueHasVar(v *m.Value) bool {
+	if v == nil {
+		return false
+	}
+	if v.Kind == m.VVar {
+		return true
+	}
+	for _, it := range v.Items {
+		if valueHasVar(it) {
+			return true
+		}
+	}
+	for _, f := range v.Fields {
+		if valueHasVar(f.Value) {
+			return true
+		}
+	}
+	return false
+}
+
+func argsHaveVar(as []m.Arg) bool {
+	for _, a := range as {
+		if valueHasVar(a.Value) {
+			return true
+		}
+	}
+	return false
+}
+
+// fragsUsingVariables: the fragments whose own selections (spreads followed) use a variable.
+func (c *FCtx) fragsUsingVariables() map[string]bool {
+	byName := map[string]*m.Def{}
+	for _, d := range c.frags() {
+		byName[d.Name] = d
+	}
+	memo := map[string]bool{}
+	var selsUse func(ss []*m.Sel, seen map[string]bool) bool
+	selsUse = func(ss []*m.Sel, seen map[string]bool) bool {
+		for _, s := range ss {
+			if argsHaveVar(s.Args) {
+				return true
+			}
+			for _, d := range s.Dirs {
+				if argsHaveVar(d.Args) {
+					return true
+				}
+			}
+			if s.Kind == m.SSpread {
+				if fd := byName[s.Name]; fd != nil && !seen[s.Name] {
+					seen[s.Name] = true
+					if selsUse(fd.Sel, seen) {
+						return true
+					}
+				}
+				continue
+			}
+			if selsUse(s.Sel, seen) {
+				return true
+			}
+		}
+		return false
+	}
+	for n, d := range byName {
+		memo[n] = selsUse(d.Sel, map[string]bool{n: true})
+	}
+	return memo
+}
+
+// deepIntrospection returns a selection on __Type that contains a chain of `need` counted list fields (fields, interfaces,
+// possibleTypes, inputFields), each link surrounded by decoys that do not count and possibly wrapped in inline fragments.
+func deepIntrospection(r *core.Rand, need int) []*m.Sel {
+	f := func(n string, sub ...*m.Sel) *m.Sel { return &m.Sel{Kind: m.SField, Name: n, Sel: sub} }
+	inl := func(tc string, sub ...*m.Sel) *m.Sel { return &m.Sel{Kind: m.SInline, TypeCond: tc, Sel: sub} }
+	decoy := func() *m.Sel {
+		switch r.Intn(6) {
+		case 0:
+			return f("name")
+		case 1:
+			return f("kind")
+		case 2:
+			return inl("__Type", f("name"))
+		case 3:
+			return inl("", f("kind"))
+		case 4:
+			return f("ofType", f("name"))
+		}
+		return inl("__Type", f("ofType", inl("", f("description"))))
+	}
+	var chain *m.Sel
+	if need == 0 {
+		chain = f("name")
+	} else {
+		rest := deepIntrospection(r, need-1)
+		switch r.Intn(5) {
+		case 0:
+			chain = f("fields", f("name"), f("type", rest...))
+		case 1:
+			chain = f("interfaces", rest...)
+		case 2:
+			chain = f("possibleTypes", rest...)
+		case 3:
+			chain = f("inputFields", inl("__InputValue", f("type", rest...)), f("name"))
+		default:
+			chain = f("fields", inl("", f("args", f("type", rest...))))
+		}
+		if r.Chance(1, 4) {
+			chain = f("ofType", chain)
+		}
+	}
+	for r.Chance(1, 3) {
+		chain = inl(r.Pick("__Type", ""), chain)
+	}
+	var out []*m.Sel
+	for r.Chance(1, 2) {
+		out = append(out, decoy())
+	}
+	out = append(out, chain)
+	for r.Chance(1, 2) {
+		out = append(out, decoy())
+	}
+	return out
 }
 
 func wrappers(t *m.Type) string {
@@ -1116,6 +1315,10 @@ func init() {
 				return false
 			}
 			typo := mutateName(c.R, names[c.R.Intn(len(names))])
+			if c.R.Bool() {
+				// a small fixed pool, so that the same unknown name meets many schemas with different close names
+				typo = c.R.Pick("Dox", "Dg", "Usr", "Pst", "Cot", "Comnent", "Doo", "Poss")
+			}
 			if c.Mg.Types[typo] != nil {
 				return false
 			}
@@ -1160,7 +1363,9 @@ func init() {
 			return true
 		}},
 		Fault{"near-miss-enum-value", "ValuesOfCorrectType", func(c *FCtx) bool {
-			tv, ok := c.pickValue(func(tv typedValue, td *tsys.Def) bool { return td != nil && td.Kind == "enum" && namedLeaf(tv) && len(td.Values) > 0 })
+			tv, ok := c.pickValue(func(tv typedValue, td *tsys.Def) bool {
+				return td != nil && td.Kind == "enum" && namedLeaf(tv) && len(td.Values) > 0
+			})
 			if !ok {
 				return false
 			}
